@@ -16,10 +16,23 @@ var (
 	LatestVer = Ver0_14_1
 )
 
+// maxProtocolVersionLen is the longest version string that still fits a field element unreduced.
+const maxProtocolVersionLen = 31
+
 // ParseBlockVersion computes the block version, defaulting to "0.0.0" for empty strings
 func ParseBlockVersion(protocolVersion string) (*semver.Version, error) {
 	if protocolVersion == "" {
 		return semver.New(0, 0, 0, "", ""), nil
+	}
+
+	// The block hash commits the version as felt.SetBytes(version): a string of more than 31 bytes
+	// does not fit a field element and would be reduced modulo the field prime, so that different
+	// strings (even with different leading version numbers) share one block hash.
+	if len(protocolVersion) > maxProtocolVersionLen {
+		return nil, fmt.Errorf(
+			"starknet protocol version is %d bytes long, at most %d are allowed",
+			len(protocolVersion), maxProtocolVersionLen,
+		)
 	}
 
 	const sep = "."
